@@ -46,11 +46,13 @@ Theorem c12_dest_no_write_after_cancel : forall (s : dst) (pkt : option pdu) (a 
 Proof. exact dest_no_write_after_cancel. Qed.
 Print Assumptions c12_dest_no_write_after_cancel.
 
-(* each of the three ways to cancel establishes the invariant: (i) an accepted cancel request, (ii) a declared fault
-   whose handler is the notice of cancellation, (iii) an EOF PDU with a condition other than No Error.  (ii) and (iii)
+(* each of the ways to cancel establishes the invariant: (i) an accepted cancel request, (ii) a declared fault
+   whose handler is the notice of cancellation, (iii) an EOF PDU with a condition other than No Error, (iv) the same
+   EOF (cancel) received before the Metadata (first PDU of the transaction, or while the Metadata is still missing):
+   since the F32 repair it is handled by literally the same procedure as (iii).  (ii) and (iii)
    happen inside a state machine call that may have written the File Data PDU it was given before the fault was
    declared (CounterExamples.write_then_cancel_in_one_call): the invariant speaks about the calls that follow.
-   (iii) needs a transmission mode that exists (CounterExamples.mode_needed). *)
+   (iii) and (iv) need a transmission mode that exists (CounterExamples.mode_needed). *)
 Theorem c12_dest_cancel_establishes :
   (forall a b s s', d_state s = ST_BUSY -> Dest.cancel_request a b s = (s', Ok true) ->
      dest_cancelled s' /\ d_step s' = DS_TRANSFER_COMPLETION /\ fs_d s' = fs_d s) /\
@@ -61,6 +63,15 @@ Theorem c12_dest_cancel_establishes :
      handle_eof_pdu c ck sz s = (s', Ok tt) ->
      dest_cancelled s' /\ fs_d s' = fs_d s /\
      (h_mode (p_conf (d_p s)) = UNACKED -> d_step s' = DS_TRANSFER_COMPLETION) /\
-     (h_mode (p_conf (d_p s)) = ACKED -> d_step s' = DS_SENDING_EOF_ACK)).
+     (h_mode (p_conf (d_p s)) = ACKED -> d_step s' = DS_SENDING_EOF_ACK)) /\
+  (* an EOF (cancel) received before the Metadata is handled exactly like any other EOF (cancel) (F32 repair) *)
+  (forall c ck sz, c <> C_NO_ERROR ->
+     (forall s, handle_eof_without_previous_metadata c ck sz s = handle_eof_pdu c ck sz s) /\
+     (forall s s', d_state s = ST_BUSY ->
+        h_mode (p_conf (d_p s)) = ACKED \/ h_mode (p_conf (d_p s)) = UNACKED ->
+        handle_eof_without_previous_metadata c ck sz s = (s', Ok tt) ->
+        dest_cancelled s' /\ fs_d s' = fs_d s /\
+        (h_mode (p_conf (d_p s)) = UNACKED -> d_step s' = DS_TRANSFER_COMPLETION) /\
+        (h_mode (p_conf (d_p s)) = ACKED -> d_step s' = DS_SENDING_EOF_ACK))).
 Proof. exact dest_cancel_establishes. Qed.
 Print Assumptions c12_dest_cancel_establishes.
